@@ -77,4 +77,10 @@ def main():
     sys.exit(run_check(mod.SPEC, a.tier, int(os.environ.get("VERIF_SEED", "0")), a.replay, au))
 
 if __name__ == "__main__":
-    main()
+    try:
+        main()
+    except SystemExit:
+        raise
+    except BaseException:          # a failure of the machinery itself is never a verdict about the property
+        import traceback; traceback.print_exc()
+        sys.exit(2)
